@@ -5,6 +5,7 @@ import (
 	"fmt"
 	"reflect"
 	"strings"
+	"time"
 
 	"github.com/cedar-policy/cedar-go/types"
 	"github.com/cedar-policy/cedar-go/verif/core"
@@ -554,8 +555,9 @@ func scopeFamily() *core.Family {
 
 func Check() *core.Check {
 	return &core.Check{
-		ID:    "C06",
-		Title: "Partial evaluation is sound for every completion of the unknowns",
+		ID:        "C06",
+		HangAfter: 120 * time.Second, // cases take at most seconds (max_case_s in the evidence); see core.Family.HangAfter
+		Title:     "Partial evaluation is sound for every completion of the unknowns",
 		Rule: "bounded-exhaustive: policies (scope-form pairs; every operator form over 17 leaves in 4 policy shapes; lists of 1..3 when/unless clauses; depth-2 short-circuit/structural parents) x 22 partial environments (unknown principal/action/resource/context, unknowns nested up to three levels deep in context records and sets (set in record, record in set, set in set, set in record in set), the same unknown twice, ignored parts) x every completion from universes that hit both branches of the comparisons; kept => residual satisfied iff original; dropped => original never satisfied; ignored part (permit) => original satisfied implies kept and residual satisfied; " +
 			"a case is non-trivial if under some environment with unknowns the original is satisfied for some completions and not for others",
 		Assumptions: []string{"satisfaction is judged by x/exp/eval.Eval on PolicyToNode (its conformance is C01)", "forbid policies under ignored parts are not constrained by the property and are skipped"},
